@@ -749,6 +749,8 @@ def _line(model, rep):
                 return Sel("nonmarked", NN)
             return Padded(("setdiff", a, b))
         if name == "numpy.unique":
+            if args[0] is marked:
+                cap["marked-normalised"] = True
             return args[0]
         if name == "numpy.arange":
             a = [Poly.coerce(x) for x in args]
@@ -798,6 +800,19 @@ def _line(model, rep):
     newt, newp = cap.get("newt"), cap.get("newp")
     if newt is None or newp is None or "replace" not in cap:
         raise AnalysisError(f"{q}: new points / cells / replace not seen")
+    # one midpoint and two halves are created per *entry* of the marked
+    # array: an index listed twice (the triangle and tetrahedron classes
+    # accept that) must be reduced to one first
+    if cap.get("marked-normalised"):
+        rep.ok(R2, "line:marked-set", "the marked array is reduced with "
+               "np.unique before midpoints and halves are created per entry")
+    else:
+        rep.fail(R2, FL, q, "line:marked-set",
+                 "midpoints and halves are created per entry of the marked "
+                 "array as given: a cell listed twice is split twice (two "
+                 "coincident midpoints, both halves twice, total length "
+                 "grows) - reduce it with np.unique first, as the "
+                 "tetrahedral sibling does", fn.lineno)
     # points: old ones first, then the midpoints of the marked cells
     okp = (len(newp) == 2 and isinstance(newp[1], NewPts)
            and newp[1].sel is marked and newp[1].what == "mean1")
@@ -1017,13 +1032,13 @@ def _subdomain_propagation(model, rep):
     replace(_subdomains=...) (the maps themselves are R3/R5); classes that
     refine through another class are interpreted on a stub mesh: the result
     must carry this mesh's subdomains as propagated by the refining class."""
-    from .c12 import interpret_delegate, SELF_SUB
+    from .c12 import interpret_delegate, SELF_SUB, _only_raises
     R4 = "C13-R4"
     n = 0
     for c in model.all_classes():
         fn = c.methods.get("_adaptive")
         if fn is None or not c.path.startswith("skfem/mesh/") or \
-                c.name == "Mesh":
+                _only_raises(fn):
             continue
         n += 1
         cons = f"{c.name}._adaptive:subdomains-handed-on"
@@ -1240,6 +1255,9 @@ def run(model: Model, rep, tier: str) -> None:
                  only=lambda f: f.name.startswith("_adaptive"))
     if n < 3:
         raise AnalysisError(f"only {n} _adaptive replace sites found")
+    from ..dgspace import report as _dg_report
+    _dg_report(model, rep, "C13-R4", lambda n: n == "_adaptive",
+               "refined(marked) returns a corrupt mesh without any error")
     rep.require_min("C13-R1", 9)
     rep.require_min("C13-R2", 3)
     rep.require_min("C13-R3", 5)
@@ -1250,6 +1268,11 @@ _LI = "skfem/mesh/mesh_line_1.py"
 _TE = "skfem/mesh/mesh_tet_1.py"
 _SETD = "np.setdiff1d(np.unique(new_t[:, ixs]), [-1])"
 MUTANTS = [
+    ("periodic meshes inherit adaptive refinement again",
+     ("skfem/mesh/mesh_dg.py", "    def _adaptive(self, *args, **kwargs):\n        raise NotImplementedError\n\n", ""), "C13-R4"),
+    ("line refinement uses the marked array as given",
+     (_LI, "        marked = np.unique(marked)\n\n        mid =",
+      "\n        mid ="), "C13-R2"),
     ("second-order triangles refine adaptively without their subdomains",
      ("skfem/mesh/mesh_tri_2.py",
       "        m = replace(MeshTri1.from_mesh(self),\n"
